@@ -185,7 +185,10 @@ impl Parseable for Test {
                 unary!(
                     "-perm",
                     Test::Perm,
-                    quote_delimiter().and_then(PermCheck::parse)
+                    quote_delimiter().and_then(terminated(
+                        PermCheck::parse,
+                        eof.context(expected("invalid_permission_format"))
+                    ))
                 ),
                 unary!("-pool", Test::Pool, String::parse),
                 literal("-readable").value(Test::Readable),
